@@ -341,14 +341,14 @@ Proof. destruct m; reflexivity. Qed.
 Definition type_upd (v : list string) (o : bctx) : bctx := set_ctx_transaction_types o v.
 Definition fee_upd (v : feeval) (o : bctx) : bctx :=
   if fee_unknown v then set_ctx_max_fee_unknown o true else set_ctx_max_fee o (fee_value v).
-Definition addr_upd (S : addr_sel) (v : sset) (o : bctx) : bctx := as_set S o (set_addr_values_gen (as_get S o) v).
+Definition addr_upd (Sl : addr_sel) (v : sset) (o : bctx) : bctx := as_set Sl o (set_addr_values_gen (as_get Sl o) v).
 
 Lemma type_block_canon d b t :
   type_store_block_gen d b t = canon_block (list string) type_upd (fun k => bc_get d k b) "TransactionType" b t.
 Proof. reflexivity. Qed.
 
-Lemma addr_block_canon d BK key S b t :
-  addr_store_block_gen d BK key S b t = canon_block sset (addr_upd S) (fun k => bc_get d k b) key b t.
+Lemma addr_block_canon d BK key Sl b t :
+  addr_store_block_gen d BK key Sl b t = canon_block sset (addr_upd Sl) (fun k => bc_get d k b) key b t.
 Proof. reflexivity. Qed.
 
 Lemma fee_step t b sel v (K : state ctxobj -> py (state ctxobj)) :
@@ -406,4 +406,214 @@ Proof.
   destruct (canon_store_spec (list string) type_upd type_upd_idem (bc_get d) "TransactionType" (function_blocks f) t Hs Hl) as (t' & Hf & H).
   exists t'. split; [|exact H]. unfold type_store_results_gen. rewrite <- Hf.
   apply fold_ext_in. intros b t1 _. apply type_block_canon.
+Qed.
+
+(* ---- addresses: four (key, attribute) pairs, each stored for the keys listed in BASE_KEYS *)
+(* a selector is an attribute: read-after-write and write-after-write *)
+Definition sel_ok (Sl : addr_sel) : Prop :=
+  (forall o a, as_get Sl (as_set Sl o a) = a) /\ (forall o a a', as_set Sl (as_set Sl o a) a' = as_set Sl o a').
+Lemma addr_upd_idem Sl : sel_ok Sl -> forall v o, addr_upd Sl v (addr_upd Sl v o) = addr_upd Sl v o.
+Proof.
+  intros [H1 H2] v o. unfold addr_upd. rewrite H1, H2.
+  unfold set_addr_values_gen, set_av_possible, set_av_no, set_av_any. cbn. reflexivity.
+Qed.
+
+(* the effect of the pairs on one slot: for each pair in order, the attribute receives the result of the slot's own key
+   when the base key is listed in BASE_KEYS, and is left alone otherwise *)
+Fixpoint addr_rel (d : gdict sset) (BK : list string) (b : nat) (fam : keyfam) (pairs : list (string * addr_sel)) (o o' : bctx) : Prop :=
+  match pairs with
+  | [] => o' = o
+  | (key, Sl) :: rest =>
+      exists o1, (if str_in key BK
+                  then exists v, bc_get d (key_of_fam key fam) b = Some v /\ o1 = addr_upd Sl v o
+                  else o1 = o) /\ addr_rel d BK b fam rest o1 o'
+  end.
+
+Lemma read_ctx_total c fam : ctx_shape c -> In fam all_fams -> exists o, read_ctx c fam = Some o.
+Proof.
+  intros Hs Hin. destruct (canon_ctx_spec unit (fun _ o => o) (fun _ => tt) "" c Hs) as (c' & _ & _ & H).
+  destruct (H fam Hin) as (o & R & _). exists o. exact R.
+Qed.
+
+Definition addr_pairs_loop (f : func) (d : gdict sset) (BK : list string) (pairs : list (string * addr_sel)) (m : py (state ctxobj)) :=
+  fold_left (fun acc tmp0 => bind acc (fun tctx =>
+      let key := fst tmp0 in let addr_field_obj := snd tmp0 in
+      if negb (str_in key BK) then ret tctx
+      else fold_left (fun acc block => bind acc (fun tctx => addr_store_block_gen d BK key addr_field_obj block tctx))
+             (function_blocks f) (ret tctx))) pairs m.
+
+Theorem addr_pairs_spec (f : func) (d : gdict sset) (BK : list string) : forall pairs t,
+  (forall p, In p pairs -> sel_ok (snd p)) ->
+  (forall b, In b (function_blocks f) -> exists c, lookup ctxobj t b = Some c /\ ctx_shape c) ->
+  (forall p b fam, In p pairs -> str_in (fst p) BK = true -> In b (function_blocks f) -> In fam all_fams ->
+     bc_get d (key_of_fam (fst p) fam) b <> None) ->
+  exists t', addr_pairs_loop f d BK pairs (Some t) = Some t' /\
+    (forall b, ~ In b (function_blocks f) -> lookup ctxobj t' b = lookup ctxobj t b) /\
+    (forall b c, lookup ctxobj t b = Some c -> ctx_shape c -> exists c', lookup ctxobj t' b = Some c' /\ ctx_shape c') /\
+    (forall b, In b (function_blocks f) -> forall fam, In fam all_fams -> exists o o',
+       read_slot t b fam = Some o /\ read_slot t' b fam = Some o' /\ addr_rel d BK b fam pairs o o').
+Proof.
+  induction pairs as [|[key Sl] pairs IH]; intros t Hok Hs Hl.
+  - exists t. split; [reflexivity|]. split; [reflexivity|]. split.
+    + intros b c Hc Hsc. exists c. split; assumption.
+    + intros b Hb fam Hin. destruct (Hs b Hb) as (c & Hc & Hsc). destruct (read_ctx_total c fam Hsc Hin) as (o & R).
+      exists o, o. unfold read_slot. rewrite Hc. cbn [bind]. repeat split; assumption.
+  - unfold addr_pairs_loop. cbn [fold_left bind fst snd]. cbv zeta.
+    destruct (str_in key BK) eqn:Ek; cbn [negb].
+    + destruct (canon_store_spec sset (addr_upd Sl) (addr_upd_idem Sl (Hok (key, Sl) (or_introl eq_refl))) (bc_get d) key (function_blocks f) t Hs)
+        as (t1 & Hf & Hout1 & Hsh1 & Hr1).
+      { intros b fam Hb Hin. apply (Hl (key, Sl)); [left; reflexivity|exact Ek|exact Hb|exact Hin]. }
+      destruct (IH t1) as (t' & Hf' & Hout & Hsh & Hr).
+      { intros p Hp. apply Hok. right. exact Hp. }
+      { intros b Hb. destruct (Hs b Hb) as (c & Hc & Hsc). exact (Hsh1 b c Hc Hsc). }
+      { intros p b fam Hp. apply Hl. right. exact Hp. }
+      exists t'. split; [|split; [|split]].
+      * unfold ret at 1. rewrite <- Hf'. unfold addr_pairs_loop. f_equal.
+        rewrite <- Hf. apply fold_ext_in. intros b t2 _. apply addr_block_canon.
+      * intros b Hn. rewrite (Hout b Hn). apply Hout1. exact Hn.
+      * intros b c Hc Hsc. destruct (Hsh1 b c Hc Hsc) as (c1 & Hc1 & Hsc1). exact (Hsh b c1 Hc1 Hsc1).
+      * intros b Hb fam Hin. destruct (Hr1 b Hb fam Hin) as (v & o & Lv & R0 & R1).
+        destruct (Hr b Hb fam Hin) as (o1 & o' & R1' & R2 & Hrel). rewrite R1 in R1'. injection R1' as <-.
+        exists o, o'. split; [exact R0|]. split; [exact R2|]. cbn [addr_rel]. exists (addr_upd Sl v o). rewrite Ek.
+        split; [exists v; split; [exact Lv|reflexivity]|exact Hrel].
+    + destruct (IH t) as (t' & Hf' & Hout & Hsh & Hr).
+      { intros p Hp. apply Hok. right. exact Hp. }
+      { exact Hs. }
+      { intros p b fam Hp. apply Hl. right. exact Hp. }
+      exists t'. split; [exact Hf'|]. split; [exact Hout|]. split; [exact Hsh|].
+      intros b Hb fam Hin. destruct (Hr b Hb fam Hin) as (o & o' & R0 & R1 & Hrel).
+      exists o, o'. split; [exact R0|]. split; [exact R1|]. cbn [addr_rel]. exists o. rewrite Ek. split; [reflexivity|exact Hrel].
+Qed.
+
+(* the selector table _store_results builds *)
+Definition addr_pairs : list (string * addr_sel) :=
+  [("RekeyTo", mkSel ctx_rekeyto set_ctx_rekeyto); ("CloseRemainderTo", mkSel ctx_closeto set_ctx_closeto);
+   ("AssetCloseTo", mkSel ctx_assetcloseto set_ctx_assetcloseto); ("Sender", mkSel ctx_sender set_ctx_sender)].
+Lemma addr_pairs_ok : forall p, In p addr_pairs -> sel_ok (snd p).
+Proof. intros p [<-|[<-|[<-|[<-|[]]]]]; split; intros; reflexivity. Qed.
+
+(* ---- THEOREM (addresses), for every class attribute BASE_KEYS *)
+Theorem addr_store_read_back (f : func) (d : gdict sset) (BK : list string) (t : state ctxobj) :
+  (forall b, In b (function_blocks f) -> exists c, lookup ctxobj t b = Some c /\ ctx_shape c) ->
+  (forall p b fam, In p addr_pairs -> str_in (fst p) BK = true -> In b (function_blocks f) -> In fam all_fams ->
+     bc_get d (key_of_fam (fst p) fam) b <> None) ->
+  exists t', addr_store_results_gen f d BK t = Some t' /\
+    (forall b, ~ In b (function_blocks f) -> lookup ctxobj t' b = lookup ctxobj t b) /\
+    (forall b c, lookup ctxobj t b = Some c -> ctx_shape c -> exists c', lookup ctxobj t' b = Some c' /\ ctx_shape c') /\
+    (forall b, In b (function_blocks f) -> forall fam, In fam all_fams -> exists o o',
+       read_slot t b fam = Some o /\ read_slot t' b fam = Some o' /\ addr_rel d BK b fam addr_pairs o o').
+Proof. intros Hs Hl. exact (addr_pairs_spec f d BK addr_pairs t addr_pairs_ok Hs Hl). Qed.
+
+(* ====================================================================== *)
+(* 4. read-back in terms of attributes; the fresh objects of Function.__init__ *)
+(* ====================================================================== *)
+(* _set_addr_values overwrites all three attributes: the new state does not depend on the old one and is the
+   AddrFieldValue the detectors' model reads (Detect.addrval_of) *)
+Lemma set_addr_values_addrval_of a v : set_addr_values_gen a v = addrval_of v.
+Proof.
+  unfold set_addr_values_gen, addrval_of, set_av_possible, set_av_no, set_av_any. cbn [av_any av_no av_possible].
+  f_equal. unfold set_diff. apply filter_ext. intros x.
+  change (set_of_list [ANY_ADDRESS; NO_ADDRESS]) with [ANY_ADDRESS; NO_ADDRESS].
+  unfold smem. cbn [existsb]. rewrite orb_false_r. reflexivity.
+Qed.
+
+Lemma lookup_fresh (f : func) b : In b (function_blocks f) -> lookup ctxobj (function_transaction_contexts_gen f) b = Some (init_ctx_gen false).
+Proof.
+  unfold function_transaction_contexts_gen. induction (function_blocks f) as [|x l IH]; intros H; [contradiction|].
+  cbn [map lookup]. destruct (Nat.eqb x b) eqn:E; [reflexivity|]. destruct H as [->|H]; [rewrite Nat.eqb_refl in E; discriminate|auto].
+Qed.
+Definition is_tail (fam : keyfam) : bool := match fam with KSelf => false | _ => true end.
+Lemma read_fresh fam : In fam all_fams -> read_ctx (init_ctx_gen false) fam = Some (init_fields_gen (is_tail fam)).
+Proof.
+  intros Hin. vm_compute in Hin.
+  repeat (destruct Hin as [<-|Hin]; [vm_compute; reflexivity|]). contradiction.
+Qed.
+Lemma fresh_shapes f : forall b, In b (function_blocks f) -> exists c, lookup ctxobj (function_transaction_contexts_gen f) b = Some c /\ ctx_shape c.
+Proof. intros b Hb. exists (init_ctx_gen false). split; [apply lookup_fresh; exact Hb|apply init_ctx_shape]. Qed.
+
+(* ---- THEOREM (all three analyses, from the fresh objects).  After FeeField, TxnType and AddrFields have stored their
+   results, every slot (b, fam) holds, attribute by attribute, the result of ITS OWN key of the field the attribute
+   belongs to; group_sizes / group_indices / is_gtxn_context are as __init__ left them *)
+Theorem store_all_read_back (f : func) (dF : gdict feeval) (dT : gdict (list string)) (dA : gdict sset) :
+  (forall b fam, In b (function_blocks f) -> In fam all_fams -> bc_get dF (key_of_fam "Fee" fam) b <> None) ->
+  (forall b fam, In b (function_blocks f) -> In fam all_fams -> bc_get dT (key_of_fam "TransactionType" fam) b <> None) ->
+  (forall key b fam, In key addr_BASE_KEYS_gen -> In b (function_blocks f) -> In fam all_fams -> bc_get dA (key_of_fam key fam) b <> None) ->
+  exists t1 t2 t3,
+    fee_store_results_gen f dF (function_transaction_contexts_gen f) = Some t1 /\
+    type_store_results_gen f dT t1 = Some t2 /\
+    addr_store_results_gen f dA addr_BASE_KEYS_gen t2 = Some t3 /\
+    forall b, In b (function_blocks f) -> forall fam, In fam all_fams ->
+      exists vf vt v1 v2 v3 v4,
+        bc_get dF (key_of_fam "Fee" fam) b = Some vf /\
+        bc_get dT (key_of_fam "TransactionType" fam) b = Some vt /\
+        bc_get dA (key_of_fam "RekeyTo" fam) b = Some v1 /\
+        bc_get dA (key_of_fam "CloseRemainderTo" fam) b = Some v2 /\
+        bc_get dA (key_of_fam "AssetCloseTo" fam) b = Some v3 /\
+        bc_get dA (key_of_fam "Sender" fam) b = Some v4 /\
+        read_slot t3 b fam = Some
+          (mkBctx (addrval_of v1) (addrval_of v2) (addrval_of v3) (addrval_of v4) vt
+                  (if fee_unknown vf then MAX_UINT64z else fee_value vf) (fee_unknown vf)
+                  (ctx_group_sizes (init_fields_gen (is_tail fam))) (ctx_group_indices (init_fields_gen (is_tail fam))) (is_tail fam)).
+Proof.
+  intros HF HT HA.
+  destruct (fee_store_read_back f dF _ (fresh_shapes f) HF) as (t1 & E1 & _ & S1 & R1).
+  assert (Sh1 : forall b, In b (function_blocks f) -> exists c, lookup ctxobj t1 b = Some c /\ ctx_shape c).
+  { intros b Hb. destruct (fresh_shapes f b Hb) as (c & Hc & Hs). exact (S1 b c Hc Hs). }
+  destruct (type_store_read_back f dT t1 Sh1 HT) as (t2 & E2 & _ & S2 & R2).
+  assert (Sh2 : forall b, In b (function_blocks f) -> exists c, lookup ctxobj t2 b = Some c /\ ctx_shape c).
+  { intros b Hb. destruct (Sh1 b Hb) as (c & Hc & Hs). exact (S2 b c Hc Hs). }
+  destruct (addr_store_read_back f dA addr_BASE_KEYS_gen t2 Sh2) as (t3 & E3 & _ & _ & R3).
+  { intros p b fam Hp _ Hb Hin. apply HA; [|exact Hb|exact Hin].
+    destruct Hp as [<-|[<-|[<-|[<-|[]]]]]; vm_compute; tauto. }
+  exists t1, t2, t3. split; [exact E1|]. split; [exact E2|]. split; [exact E3|].
+  intros b Hb fam Hin.
+  destruct (R1 b Hb fam Hin) as (vf & o0 & Lf & Q0 & Q1).
+  destruct (R2 b Hb fam Hin) as (vt & o1 & Lt & Q1' & Q2). rewrite Q1 in Q1'. injection Q1' as <-.
+  destruct (R3 b Hb fam Hin) as (o2 & o3 & Q2' & Q3 & Hrel). rewrite Q2 in Q2'. injection Q2' as <-.
+  unfold read_slot in Q0. rewrite (lookup_fresh f b Hb) in Q0. cbn [bind] in Q0. rewrite (read_fresh fam Hin) in Q0. injection Q0 as <-.
+  cbn [addr_rel addr_pairs] in Hrel. change (str_in "RekeyTo" addr_BASE_KEYS_gen) with true in Hrel.
+  change (str_in "CloseRemainderTo" addr_BASE_KEYS_gen) with true in Hrel. change (str_in "AssetCloseTo" addr_BASE_KEYS_gen) with true in Hrel.
+  change (str_in "Sender" addr_BASE_KEYS_gen) with true in Hrel.
+  destruct Hrel as (a1 & (v1 & L1 & ->) & a2 & (v2 & L2 & ->) & a3 & (v3 & L3 & ->) & a4 & (v4 & L4 & ->) & ->).
+  exists vf, vt, v1, v2, v3, v4. repeat (split; [assumption|]). rewrite Q3. f_equal.
+  unfold addr_upd. cbn [as_get as_set]. rewrite !set_addr_values_addrval_of.
+  unfold type_upd, fee_upd. destruct fam; destruct (fee_unknown vf) eqn:Eu; cbn; rewrite ?Eu; reflexivity.
+Qed.
+
+(* ---- the model: Detect.ctx_of reads the model result r of Domains.run_all; when the three dictionaries hold the
+   model's results (key_of_fam base fam |-> res_* r fam), every TAIL slot reads exactly ctx_of r b fam, and the head
+   slot agrees with ctx_of r b KSelf on every attribute except group_sizes / group_indices, which
+   GroupIndices._store_results writes (tools/translate_consts.py, ConstsGenLemmas.store_results_gen_eq) *)
+Definition same_but_int (o o' : bctx) : Prop :=
+  ctx_rekeyto o = ctx_rekeyto o' /\ ctx_closeto o = ctx_closeto o' /\ ctx_assetcloseto o = ctx_assetcloseto o' /\ ctx_sender o = ctx_sender o' /\
+  ctx_transaction_types o = ctx_transaction_types o' /\ ctx_max_fee o = ctx_max_fee o' /\ ctx_max_fee_unknown o = ctx_max_fee_unknown o' /\
+  ctx_is_gtxn_context o = ctx_is_gtxn_context o'.
+
+Theorem store_all_ctx_of (f : func) (r : fn_result) (dF : gdict feeval) (dT : gdict (list string)) (dA : gdict sset) :
+  (forall b fam, In b (function_blocks f) -> In fam all_fams -> bc_get dF (key_of_fam "Fee" fam) b = Some (res_fee r fam b)) ->
+  (forall b fam, In b (function_blocks f) -> In fam all_fams -> bc_get dT (key_of_fam "TransactionType" fam) b = Some (res_types r fam b)) ->
+  (forall key b fam, In key addr_BASE_KEYS_gen -> In b (function_blocks f) -> In fam all_fams ->
+     bc_get dA (key_of_fam key fam) b = Some (res_addr r key fam b)) ->
+  exists t1 t2 t3,
+    fee_store_results_gen f dF (function_transaction_contexts_gen f) = Some t1 /\
+    type_store_results_gen f dT t1 = Some t2 /\
+    addr_store_results_gen f dA addr_BASE_KEYS_gen t2 = Some t3 /\
+    forall b, In b (function_blocks f) -> forall fam, In fam all_fams ->
+      exists o, read_slot t3 b fam = Some o /\ same_but_int o (ctx_of r b fam) /\ (fam <> KSelf -> o = ctx_of r b fam).
+Proof.
+  intros HF HT HA.
+  destruct (store_all_read_back f dF dT dA) as (t1 & t2 & t3 & E1 & E2 & E3 & R).
+  { intros b fam Hb Hin. rewrite (HF b fam Hb Hin). discriminate. }
+  { intros b fam Hb Hin. rewrite (HT b fam Hb Hin). discriminate. }
+  { intros key b fam Hk Hb Hin. rewrite (HA key b fam Hk Hb Hin). discriminate. }
+  exists t1, t2, t3. repeat (split; [assumption|]). intros b Hb fam Hin.
+  destruct (R b Hb fam Hin) as (vf & vt & v1 & v2 & v3 & v4 & Lf & Lt & L1 & L2 & L3 & L4 & Q).
+  rewrite (HF b fam Hb Hin) in Lf. injection Lf as <-. rewrite (HT b fam Hb Hin) in Lt. injection Lt as <-.
+  rewrite (HA "RekeyTo" b fam) in L1 by (assumption || (vm_compute; tauto)). injection L1 as <-.
+  rewrite (HA "CloseRemainderTo" b fam) in L2 by (assumption || (vm_compute; tauto)). injection L2 as <-.
+  rewrite (HA "AssetCloseTo" b fam) in L3 by (assumption || (vm_compute; tauto)). injection L3 as <-.
+  rewrite (HA "Sender" b fam) in L4 by (assumption || (vm_compute; tauto)). injection L4 as <-.
+  eexists. split; [exact Q|]. split.
+  - unfold same_but_int, ctx_of. cbn. destruct fam; repeat split; reflexivity.
+  - intros Hne. unfold ctx_of. destruct fam; [congruence| | |]; reflexivity.
 Qed.
